@@ -22,7 +22,7 @@ def sel(module, quick_re, thorough_re=None):
 # --- planner step family -----------------------------------------------------------------------
 # quick: shapes 1x1x1 1x2x1 2x1x1 2x2x1, 1 read + 1 write per group and for the new system,
 #        every barrier position, 0/1 dependencies (+ 2 / 2-equal on 2x1x1 and 1x2x1)
-STEP_Q = (r'^step_s(1g1l1|1g2l1|2g1l1|2g2l1)_r1w1_b\d_d(0|1|2|2e)_n11$|^step_s(2g1l1|2g2l1)_r1w1_b[01]_d3aba_n11$|^step_s1g1l[34]_r1w1_b0_d[01]_n11$')
+STEP_Q = (r'^step_s(1g1l1|1g2l1|2g1l1|2g2l1)_r1w1_b\d_d(0|1|2|2e)_n11$|^step_s(2g1l1|2g2l1)_r1w1_b[01]_d3aba_n11$|^step_s1g1l[34]_r1w1_b0_d[01]_n11$|^step_s1g2l5_r1w1_b0_d0_n11$|^step_s1g2l1_r2w1_b0_d[01]_n12$')
 STEP_T = r'^step_'
 STEP_FUNCS = ['StagesBuilder::insertion_target', 'StagesBuilder::find_conflict', 'StagesBuilder::remove_ids',
               'StagesBuilder::improves_balance', 'Conflict::add', 'dispatch::util::check_intersection',
@@ -135,7 +135,7 @@ PROPS = {
     'C02': prop('model_checking', [step_part(), exec_part(), mir_part(['spec_add'])], STEP_FUNCS + EXEC_FUNCS + ['DispatcherBuilder::add'], both(STEP_BOUNDS, EXEC_BOUNDS), STEP_ASSUME + EXEC_ASSUME + MIR_ASSUME, STEP_OUT + EXEC_OUT, RULE_STEP + ' | ' + RULE_EXEC + ' | ' + MIR_RULE),
     'C03': prop('model_checking', [step_part(), exec_part(), unit_part(r'^unit_barrier_'), mir_part(['spec_add_barrier', 'spec_insertion_target'])], STEP_FUNCS + ['StagesBuilder::add_barrier', 'DispatcherBuilder::add_barrier'], both(STEP_BOUNDS, EXEC_BOUNDS), STEP_ASSUME + EXEC_ASSUME + MIR_ASSUME, STEP_OUT + EXEC_OUT, RULE_STEP + ' | ' + RULE_EXEC + ' | ' + MIR_RULE),
     'C04': prop('model_checking', [exec_part('C04'), commit_part('C04'), mir_part()], EXEC_FUNCS + ['MultiDispatcher::run', 'DispatcherBuilder::add_batch'], EXEC_BOUNDS, EXEC_ASSUME + MIR_ASSUME, EXEC_OUT + ['hundreds of systems as one concrete plan (covered through the commit induction)'], RULE_EXEC + ' | ' + MIR_RULE),
-    'C05': prop('model_checking', [exec_part(), mir_part(['spec_insert', 'spec_stage_exec', 'spec_feature_configs'])], EXEC_FUNCS, EXEC_BOUNDS, EXEC_ASSUME, EXEC_OUT + ['that non-conflicting steps commute on the real World under real interleavings (reduced claim: order agreement of dispatch_par and dispatch_seq on every ordered pair)'], RULE_EXEC),
+    'C05': prop('model_checking', [exec_part(), dict(step_part(), labels=['C01']), mir_part(['spec_insert', 'spec_stage_exec', 'spec_feature_configs'])], EXEC_FUNCS + STEP_FUNCS, EXEC_BOUNDS, EXEC_ASSUME, EXEC_OUT + ['that non-conflicting steps commute on the real World under real interleavings (reduced claim: order agreement of dispatch_par and dispatch_seq on every ordered pair)'], RULE_EXEC),
     'C06': PROPS_C06,
     'C07': prop('other', [mir_part(), unit_part(r'^unit_fetchall_(s1g1l1_r2w2|s1g2l1_r1w1)', r'^unit_fetchall_')], ['DispatcherBuilder::add_batch', 'BatchAccessor::{new,reads,writes}', 'BatchControllerSystem::{create,run,accessor,running_time}', 'BatchUncheckedWorld::{fetch,setup}'], {'loop unrolling': 3, 'nesting': 'any depth: a nested batch is an ordinary system of the inner builder'}, MIR_ASSUME + ['fetch_all_reads/fetch_all_writes return every id of every group (E1 unit harness, thorough)', 'sort/dedup preserve membership (std contract)'], ['interleavings of outer systems with the batch (C01 applies to the batch as one system)'], MIR_RULE, 'E2 symbolic execution of the batch glue'),
     'C10': prop('model_checking', [step_part(), exec_part()], STEP_FUNCS + ['SendDispatcher::max_threads', 'Stage::max_threads'], both(STEP_BOUNDS, EXEC_BOUNDS), STEP_ASSUME + EXEC_ASSUME, STEP_OUT, RULE_STEP + ' | ' + RULE_EXEC),
